@@ -16,8 +16,9 @@ package gcsutil
 //@   held l.mu none
 //@   requires !isnil(ctx)
 //@   requires f != nil
-//@   modifies *, ghost(epoch), ghost(lmTick), ghost(lmLastOp), ghost(lmLastId), ghost(gcsValidEpoch)
+//@   modifies *, ghost(epoch), ghost(lmTick), ghost(lmLastOp), ghost(lmLastId), ghost(gcsValidEpoch), ghost(gcsLockedKey)
 //@   callback f assume gcsValidEpoch != epoch
+//@   callback f assume gcsLockedKey == key
 //@   ensures lmLastOp == 1 || lmLastOp == 3
 //@   ensures lmLastOp == 1 ==> lmCtxDone(ctx) && result != nil
 //@   ensures lmLastOp == 1 && old(lmInv(l)) ==> lmInv(l) && forall k string :: ((k in l.locks) == old(k in l.locks) && (k in l.locks ==> l.locks[k] == old(l.locks[k]) && l.locks[k].refcount == old(l.locks[k].refcount)))
